@@ -317,6 +317,7 @@ class Bits(object):
               r = range(start,stop,step)
             else:
                 r = i
+            if len(v)<len(r): v.size = len(r)
             assert len(r)==len(v)
             for j,b in zip(r,v):
                 self[j] = b
